@@ -114,10 +114,13 @@ func (c *Chain) ExecProposal(content govtypes.Content) (res string, msg string) 
 	}
 	handler := c.App.GovKeeper.Router().GetRoute(content.ProposalRoute())
 	cacheCtx, write := c.Ctx().CacheContext()
+	cacheCtx = cacheCtx.WithEventManager(sdk.NewEventManager())
 	if err := handler(cacheCtx, content); err != nil {
+		DetRecord("proposal|err|"+err.Error(), nil)
 		return "err", err.Error()
 	}
 	write()
+	DetRecord("proposal|ok", cacheCtx.EventManager().ABCIEvents())
 	return "ok", ""
 }
 
